@@ -2,14 +2,13 @@ package harness
 
 import (
 	"context"
-	"runtime"
-	"sync"
 	"errors"
 	"fmt"
 	"log/slog"
+	"runtime"
 	"sort"
 	"strings"
-	"testing/synctest"
+	"sync"
 
 	wire "github.com/jeroenrinzema/psql-wire"
 	"github.com/jeroenrinzema/psql-wire/pkg/buffer"
@@ -223,7 +222,9 @@ func (rt *Runtime) inspectCtx(c *connState, ctx context.Context, where string) {
 		}
 	}
 	prev := "none"
-	if c.cmdCtx != nil {
+	if c.cmdCtx != nil && c.cmdCtx != ctx {
+		// the context a callback of an EARLIER command received (callbacks of one
+		// command share their context value)
 		prev = fmt.Sprint(c.cmdCtx.Err() != nil)
 	}
 	ra := "<nil>"
@@ -391,6 +392,7 @@ func (rt *Runtime) isFrozen() bool { return rt.frozen }
 
 func newRuntime(c *Case, scheduled bool) *Runtime {
 	rt := &Runtime{C: c, K: NewKernel(scheduled), never: make(chan struct{})}
+	simSleepers.Store(0)
 	rt.acceptTask = rt.K.AddTask("accept")
 	rt.L = newSimListener(rt)
 	for i := range c.Conns {
@@ -437,14 +439,14 @@ func (rt *Runtime) teardown(res *Result) {
 	defer setCurInline(nil)
 	res.LockDead = rt.lockDead
 	close(rt.never)
-	synctest.Wait()
+	bubbleWait()
 	done := make(chan struct{})
 	go func() {
 		defer func() { recover() }()
 		rt.Srv.Close() //nolint:errcheck
 		close(done)
 	}()
-	synctest.Wait()
+	bubbleWait()
 	select {
 	case <-done:
 	default:
@@ -482,7 +484,7 @@ func RunInline(c *Case) *Result {
 	}()
 	for _, cs := range rt.Conns {
 		rt.L.offer <- cs.SimConn
-		synctest.Wait()
+		bubbleWait()
 	}
 	rt.teardown(res)
 	rt.finish(res)
@@ -528,7 +530,7 @@ func RunScheduled(c *Case) *Result {
 	// Serve must be up (parked in its first Accept) before any Close caller
 	// exists: the properties quantify over Close racing with connections, not
 	// over Close racing with the start of Serve itself.
-	synctest.Wait()
+	bubbleWait()
 	for i, cs := range rt.Conns {
 		if cs.cc.TLS != nil {
 			cs, task := cs, clientTask[i]
@@ -565,7 +567,7 @@ func RunScheduled(c *Case) *Result {
 	res.Outcome = rt.K.Run(nil)
 	// a real (not suppressed) join: every task is durably blocked or gone, and
 	// this Wait is the happens-before edge under which the results are read
-	synctest.Wait()
+	bubbleWait()
 	res.Stuck = rt.K.ParkedPoints()
 	res.Schedule = rt.K.Recorded()
 	res.Trace = rt.K.trace
